@@ -131,8 +131,8 @@ def short_job(item):
         with open(path + ".tmp", "w") as f:
             json.dump(rec, f)
         os.replace(path + ".tmp", path)
-    c_all = D.build_series(("random", 320, 21))
-    c2_all = D.build_series(("random", 320, 1021))
+    c_all = D.build_series(("random", 720, 21))
+    c2_all = D.build_series(("random", 720, 1021))
     with contextlib.redirect_stdout(io.StringIO()):
         for kw, lengths in vsets:
             for n in lengths:                    # descending: the riskiest (shortest) inputs come last
@@ -143,10 +143,19 @@ def short_job(item):
                     rec["skipped"] += 1
                     flush()
                     continue
-                # the non-sequential result on the same (short) input, when the call accepts it
+                # inputs longer than the warm-up window: the sequential series on the trailing window (the windows of this
+                # parameter set may be longer than that window - everything is warm-up then)
+                win = None
+                if n > W:
+                    try:
+                        rec["calls"] += 1
+                        win = dict(D.fields_of(D.call(entry, c_all[n - W:n], c2_all[n - W:n], kw, True)))
+                    except Exception:
+                        win = "raised"
+                # the non-sequential result on the same input, when the call accepts it
                 try:
                     rec["calls"] += 1
-                    single = dict(D.fields_of(D.call(entry, c_all[:n], c2_all[:n], kw, False)))
+                    single = dict(D.fields_of(D.call(entry, c_all[:n], c2_all[:n], kw, False))) if win != "raised" else None
                 except Exception:
                     single = None
                 for f, v in D.fields_of(r):
@@ -165,6 +174,11 @@ def short_job(item):
                         continue
                     unit = D.scale_of(s + ([x] if scalar and kind == "num" else []), 100.0) * 1e-6
                     t["ev"].append({"k": "seq", "n": n, "out": D.enc_series(s, kind, unit)})
+                    if isinstance(win, dict):
+                        w = D.as_list(win.get(f))
+                        if w is None or D.kind_of(w) != kind and kind == "num" and D.kind_of(w) == "str":
+                            continue
+                        t["ev"].append({"k": "win", "n": W, "out": D.enc_series(w, kind, unit)})
                     if has_single:
                         t["ev"].append({"k": "single", "scalar": bool(scalar), "v": D.enc_series([x], kind, unit)[0]})
                 flush()
@@ -183,7 +197,10 @@ def short_plan(ctx, cat, scratch):
         pmax = min(max(e["params"][n] for n in names), ctx.pick(60, 120))
         vsets.append(({}, list(range(pmax + 1, 0, -1))))
         # long windows against the 240-row warm-up window (and a few shorter inputs)
-        vsets.append(({n: 300 for n in names}, [240, 100, 20]))
+        # legal but extreme: windows ABOVE the 240-candle warm-up window on inputs longer than it (clause 3: the non-
+        # sequential result is the last entry of the sequential series over the trailing 240 candles - typically NaN)
+        for big in (241, 300, 365):
+            vsets.append(({n: big for n in names}, [700, 400, 300, 241] + ([240, 100, 20] if big == 300 else [])))
         slow = D.slow_variant(e)
         if slow is not None and not ctx.quick:
             vsets.append((slow, list(range(min(max(slow.values()) + 1, 160), 0, -3))))
@@ -216,7 +233,7 @@ def run_short(ctx, cat):
                 lag = int(t["kw"].get("order", e["params"].get("order", 0)))
             traces.append({"hdr": {"ind": e["name"], "field": t["field"], "kind": t["kind"], "lag": lag, "n": t["ev"][0]["n"],
                                    "window": W, "params": c13.params_key(t["kw"]) + ",short-input",
-                                   "series": ["random", 320, 21, "lengths %d..%d" % (min(x["n"] for x in t["ev"] if x["k"] == "seq"), t["ev"][0]["n"])],
+                                   "series": ["random", 720, 21, "lengths %d..%d" % (min(x["n"] for x in t["ev"] if x["k"] == "seq"), t["ev"][0]["n"])],
                                    "finite": 0},
                            "ev": t["ev"], "kw": t["kw"], "short": True})
     return traces, st
